@@ -1,4 +1,5 @@
 """C10 LoopingCall on a real task.Clock: cadence on boundaries, no overlap, skip counts, start() Deferred."""
+import math
 import os
 import sys
 import time as _time
@@ -31,19 +32,58 @@ def _trunc_int(x=0, *a):
     return int(x, *a)
 
 
+def _via_dunder(name, orig):
+    def shim(x, *a):
+        if not isinstance(x, (str, bytes, bytearray)) and hasattr(x, name):
+            return getattr(x, name)(*a)
+        return orig(x, *a)
+    return shim
+
+
+def _divmod_shim(a, b):
+    return (a // b, a % b)
+
+
+# rounding helpers a timer module may call: CrossHair registers math.floor/ceil/trunc as "realise the arguments"
+# (one path per value) and leaves round/divmod to the C implementation; RealBasedSymbolicFloat's own
+# __floor__/__ceil__/__trunc__/__round__/__floordiv__/__mod__ are symbolic (z3 ToInt / integer quotient), so the
+# helpers are routed there.  `//` and `%` need nothing (operators already dispatch to the symbolic methods).
+_ROUNDING_SHIMS = [(math.floor, _via_dunder("__floor__", math.floor)), (math.ceil, _via_dunder("__ceil__", math.ceil)),
+                   (math.trunc, _via_dunder("__trunc__", math.trunc)), (round, _via_dunder("__round__", round)),
+                   (divmod, _divmod_shim)]
+
 if os.environ.get("VERIF_MODE") == "sym":
-    # LoopingCall._intervalOf is the only user of int() in twisted.internet.task
+    # int(): LoopingCall._intervalOf is the only user in twisted.internet.task; rebound in the module namespace
     _task.int = _trunc_int
+    if "crosshair" in sys.modules:
+        # the others are intercepted by CrossHair's call patching whatever name/import the module uses
+        # (`import math`, `from math import floor`, a function-local import, the builtins round/divmod)
+        from crosshair import core as _chcore
+        for _ent, _rep in _ROUNDING_SHIMS:
+            _chcore._PATCH_REGISTRATIONS[_ent] = _rep
 
 
 def selftest():
+    from fractions import Fraction
     n = 0
-    for v in (0.0, -0.0, 0.25, -0.25, 0.999, 1.0, 1.5, -1.5, 2.0, -2.0, 7.75, -7.75, 1e9 + 0.5, 3, -3, True,
-              0.1 + 0.2, 2.5 / 0.25, (1.75 - 0.5) / 0.25, "12", " 7 "):
+    corpus = (0.0, -0.0, 0.25, -0.25, 0.999, 1.0, 1.5, -1.5, 2.0, -2.0, 2.5, -2.5, 7.75, -7.75, 1e9 + 0.5, 3, -3, True,
+              0.1 + 0.2, 2.5 / 0.25, (1.75 - 0.5) / 0.25, -0.5 / 0.25, Fraction(-7, 2))
+    for v in corpus + ("12", " 7 "):
         assert _trunc_int(v) == int(v) and type(_trunc_int(v)) is int, v
         n += 1
     assert _trunc_int("ff", 16) == 255 and _trunc_int() == 0
-    return n + 2
+    for orig, shim in _ROUNDING_SHIMS:
+        for v in corpus:
+            if orig is divmod:
+                for d in (1.0, 0.5, 0.25, 3, -2.0):
+                    assert shim(v, d) == orig(v, d), (v, d)
+                    n += 1
+            else:
+                assert shim(v) == orig(v) and type(shim(v)) is type(orig(v)), (orig, v)
+                n += 1
+        if orig is round:
+            assert shim(2.675, 2) == round(2.675, 2) and shim(1234.5, -2) == round(1234.5, -2)
+    return n + 4
 
 
 PROPERTY = "C10"
@@ -72,11 +112,16 @@ OUTSIDE = ["Float64 rounding: E1 and the E6 lemma are over exact reals/rationals
            "unreachable over reals (the lemma proves that); its floating-point correctness is NOT claimed",
            "interval 0 (a task.Clock advance never terminates: the call reschedules itself for 'now'); intervals "
            "other than the five case-split values in the E1 part (the E6 lemma covers every interval > 0 for howLong)",
-           "withCount skip-count sum after reset() (starttime moves while _realLastTime does not; only count >= 1 is "
-           "checked then)",
            "second start() after the loop ended; stop()/reset() on a loop that is not running (API precondition)",
            "more than one stop()/reset() per history; non-finite times"]
-ASSUMPTIONS = ["at most one invocation per Clock.advance is possible (the next call is always scheduled strictly "
+ASSUMPTIONS = ["withCount after reset() at S' (rule read off _intervalOf/counter/reset and checked here): the counts passed "
+               "since the reset sum to (boundaries of the new grid S' + k*I in (S', T]) + floor((S' - L)/I), L = time of "
+               "the last invocation before the reset; the second term is 0 unless a pending Deferred kept the loop "
+               "waiting for a whole interval or more before the reset",
+               "rounding helpers (int, math.floor/ceil/trunc, round, divmod) called with symbolic reals are routed to "
+               "the symbolic __trunc__/__floor__/__ceil__/__round__/__floordiv__/__mod__ (validated against the "
+               "originals in selftest())",
+               "at most one invocation per Clock.advance is possible (the next call is always scheduled strictly "
                "after 'now'); the oracle checks that too",
                "the trace oracle keeps its own clock, start time, completion time and running/waiting state; the "
                "scheduled time is read from LoopingCall.call.getTime() only to be validated"]
@@ -114,7 +159,7 @@ def _loop(iv, t0, now, wc, behs, advs, fires, sop, splace):
     tr = _Trace()
     m = {"tnow": 0.0 + t0, "S": 0.0 + t0, "C": 0.0 + t0, "alive": False, "waiting": False, "pend": None, "pendb": 0,
          "E": None, "ncalls": 0, "in_start": False, "in_adv": False, "inv_this": 0, "sum": 0, "nf": 0,
-         "was_reset": False, "exp": None, "sopdone": False, "stopped_in_call": False}
+         "Tprev": None, "exp": None, "sopdone": False, "stopped_in_call": False}
     fired = []
     boom = _Boom()
 
@@ -136,9 +181,16 @@ def _loop(iv, t0, now, wc, behs, advs, fires, sop, splace):
             if not inside and not m["waiting"]:
                 m["S"] = m["tnow"]
                 m["C"] = m["tnow"]
-                m["was_reset"] = True
+                # withCount after reset(): counts restart on the NEW grid S' + k*I.  Exact rule of the code
+                # (_intervalOf truncates, the last invocation L lies at or before S'):
+                #   count(T) = floor((T - S')/I) - trunc((L - S')/I) = floor((T - S')/I) + floor((S' - L)/I)
+                # i.e. boundaries of the new grid in (S', T] plus the WHOLE intervals that had already elapsed
+                # between the last invocation and the reset (0 unless a Deferred kept the loop waiting > I)
                 m["sum"] = 0
-                m["nf"] = 0
+                if m["Tprev"] is None:
+                    m["nf"] = 0
+                else:
+                    m["nf"] = _trunc_int((m["tnow"] - m["Tprev"]) / I)
 
     def f(*args):
         k = m["ncalls"]
@@ -162,11 +214,12 @@ def _loop(iv, t0, now, wc, behs, advs, fires, sop, splace):
                 if not (c >= 1):
                     tr.fail()
                 m["sum"] = m["sum"] + c
-                if not m["was_reset"]:
-                    # counts so far == boundaries elapsed so far (the one at start counts iff now=True)
-                    el = m["sum"] - m["nf"]
-                    if not (el * I <= T - m["S"] and T - m["S"] < (el + 1) * I):
-                        tr.fail()
+                # counts since start()/reset() == boundaries of the current grid elapsed so far (the one at
+                # start counts iff now=True; after reset() see do_sop)
+                el = m["sum"] - m["nf"]
+                if not (el * I <= T - m["S"] and T - m["S"] < (el + 1) * I):
+                    tr.fail()
+                m["Tprev"] = T
         elif len(args) != 0:
             tr.fail()
         m["ncalls"] = k + 1
